@@ -87,8 +87,21 @@ def _twin(prop: str, repo: str, base: set[str]) -> dict:
         shutil.rmtree(tmp, ignore_errors=True)
 
 
-def _refactor(prop: str, repo: str, name: str, patch: str, base: set[str]) -> dict:
+def _patched_modules(patch: str) -> set[str]:
+    out = set()
+    with open(patch, encoding="utf-8") as f:
+        for ln in f:
+            m = re.match(r"\+\+\+ b/src/jinja2/(\w+)\.py", ln)
+            if m:
+                out.add(m.group(1))
+    return out
+
+
+def _refactor(prop: str, repo: str, name: str, patch: str, base: set[str], read_set: set[str] | None = None) -> dict:
     """A behaviour-preserving refactoring set must not change the verdict."""
+    if read_set is not None and not (_patched_modules(patch) & read_set):
+        # the check never consulted a module this set changes: its verdict cannot differ
+        return {"name": name, "status": "silent", "why": "changes no module this check reads"}
     tmp = tempfile.mkdtemp(prefix=f"st_{prop}_{name}_")
     try:
         os.makedirs(os.path.join(tmp, "src"))
@@ -104,7 +117,7 @@ def _refactor(prop: str, repo: str, name: str, patch: str, base: set[str]) -> di
         shutil.rmtree(tmp, ignore_errors=True)
 
 
-def selftest(prop: str, repo: str, base: set[str]) -> dict:
+def selftest(prop: str, repo: str, base: set[str], read_set: set[str] | None = None) -> dict:
     """``base``: finding keys of the main run (known findings included)."""
     try:
         with open(INDEX, encoding="utf-8") as f:
@@ -117,7 +130,7 @@ def selftest(prop: str, repo: str, base: set[str]) -> dict:
         futs = [ex.submit(_variant, prop, repo, tag, os.path.join(VERIF, v["patch"]), bool(v.get("reverse")), base) for tag, v in todo]
         tw = ex.submit(_twin, prop, repo, base)
         rfdir = os.path.join(VERIF, "selftest", "refactors")
-        rfs = [ex.submit(_refactor, prop, repo, f[:-5], os.path.join(rfdir, f), base) for f in sorted(os.listdir(rfdir)) if f.endswith(".diff")] if os.path.isdir(rfdir) else []
+        rfs = [ex.submit(_refactor, prop, repo, f[:-5], os.path.join(rfdir, f), base, read_set) for f in sorted(os.listdir(rfdir)) if f.endswith(".diff")] if os.path.isdir(rfdir) else []
         out["must_fire"] = [f.result() for f in futs]
         out["twin"] = tw.result()
         out["refactorings"] = [f.result() for f in rfs]
